@@ -324,6 +324,8 @@ def r12_8(chk, tier):
         a = pick(fj, name, 'jsonpath_selector.hpp'); b = pick(fm, name, 'jmespath.hpp')
         chk.require(a is not None and b is not None, 'R12.8: slice::%s not found in one of the two libraries' % name)
         chk.analysed(a); chk.analysed(b)
+        # one library may keep the normalisation in a private helper shared by get_start and get_stop (E11)
+        a = I.expand(fj, a, depth=2); b = I.expand(fm, b, depth=2)
         # path summaries (locals substituted, conditional expressions split into paths) when both functions are in the fragment,
         # else the statement-level guarded effects
         pa, pb = A.path_summaries(C.CFG(a['body']), a['body']), A.path_summaries(C.CFG(b['body']), b['body'])
